@@ -110,6 +110,12 @@ def run(ctx):
                         tag='paced-tail-%d-n%d-gap%dms-%s' % (k, n, gap // 1000, 'fin' if fin_lost else 'data'),
                         a=dict(writes=[rng.choice([100, 400, 500])] * n, write_gap_us=gap, shutdown=True),
                         b=dict(writes=[rng.choice([0, 200])] if k % 2 else [], shutdown=True), a2b=dict(rules=rules)))
+    # ---- a SCALED receive window closes with 1 .. 2^scale - 1 bytes of buffer left (the field on the wire is zero although
+    #      the buffer is not full), then the application drains the buffer: the window must re-open (no packet is lost)
+    for k, (rb, first) in enumerate([(131072, 7), (262144, 1), (131072, 13), (1 << 20, 7)][:ctx.pick(2, 4)]):
+        scs.append(dict(v=4, mtu=1500, sack=(k % 2 == 0), cc='', deadline_ms=30000, seed=300 + k, flags={}, tag='scaled-zero-window-%d-rb%d' % (k, rb),
+                        a=dict(writes=[first, rb + 50000], shutdown=True), b=dict(writes=[], shutdown=True, rcvbuf=rb, read_start_ms=600),
+                        a2b=dict(), b2a=dict()))
     # ---- close orders: an application that has read the end of stream and finished writing Close()s its endpoint (the
     #      stack forgets the connection: no TIME-WAIT), the other side shuts down later and reads late; one packet of the
     #      closing exchange is lost.  Includes the replay of fixed finding F26 (final ACK lost -> retransmitted FIN answered by
